@@ -94,6 +94,14 @@ CHECKS = {
                      'the wire; every answer must belong to the reference set',
                 note='loads in {0,30,60,90} per instance, expected_loading in {0,40,70,100}; ties beyond the documented '
                      'tie-break are all acceptable'),
+    'C19': dict(engine='E2-seq', category='exploration', technique='bounded-exhaustive relational check: two real worlds rebuilt '
+                'from the same history (prediction vs real start), full observable snapshots compared before / after',
+                ref='DESIGN.md section 4, C19',
+                text='for every (load table, distribution rule, application shape, strategy, requester, repetition count) the '
+                     'prediction must send nothing and leave every status payload, the rules and the Starter / Stopper / handler '
+                     'state identical, and must equal the placement requested by a real start on a cloned cluster in which every '
+                     'process starts normally',
+                note='3 instances on 2 nodes, loads in {0,30,60}, 3 application shapes'),
     'C20': dict(engine='E2-seq', category='exploration', technique=E2, ref='DESIGN.md section 4, C20',
                 text='every stream of samples up to the depth bound over the alphabet (time steps, key sets changing, counters '
                      'wrapping, pid changes, unknown instance) is pushed into the real compilers; depth, alignment, period gate, '
